@@ -188,7 +188,8 @@ pub fn run(args: &Args) {
         cfg.signer = Some(key.to_string());
         let pkg = match guarded(|| gen_::build(&cfg, &wd)) {
             Ok(Ok(p)) => p,
-            _ => { t.emit(json!({"event":"Panic","op":"build_and_sign","key":key})); continue; }
+            // (building / signing is other properties' business: without a carrier there is nothing to tamper with)
+            _ => { t.emit(json!({"event":"CarrierSkipped","why":"build_and_sign failed","key":key})); continue; }
         };
         let mut base = vec![];
         pkg.write(&mut Plain(&mut base)).unwrap();
@@ -201,7 +202,8 @@ pub fn run(args: &Args) {
         let untouched_ok = e["verify"] == "ok";
         t.emit(e);
         if !untouched_ok {
-            t.emit(json!({"event":"Panic","op":"signed package does not verify","key":key}));
+            // a valid package that is refused is C10's violation, not C02's ("succeeds only if ...")
+            t.emit(json!({"event":"CarrierSkipped","why":"the untouched signed package does not verify","key":key}));
             continue;
         }
         let region_bits = (base.len() - lay.hdr_at) * 8;
